@@ -81,7 +81,7 @@ func runC11(src sim.Source, o Opts) *Result {
 			// one pattern registered under many verbs with long names (WebDAV/DeltaV style, without the hyphens fox's method check refuses): the Allow value for it, and
 			// for '*', runs to well over a hundred bytes
 			pi := src.Intn("manyverbspat", len(rr.pool))
-			for _, verb := range []string{"PROPFIND", "PROPPATCH", "MKCOL", "VERSIONCONTROL", "MKWORKSPACE", "BASELINECONTROL", "MKACTIVITY", "ORDERPATCH", "UNCHECKOUT", "REPORT"} {
+			for _, verb := range []string{"PROPFIND", "PROPPATCH", "MKCOL", "VERSIONCONTROL", "MKWORKSPACE", "BASELINECONTROL", "MKACTIVITY", "ORDERPATCH", "UNCHECKOUT", "REPORT", "UNLOCK", "LOCK", "PATCH"} /* the last three: names contained in names registered before them */ {
 				rr.nextTag++
 				op := WOp{Kind: "handle", Method: verb, Pat: pi, Tag: rr.nextTag, Opt: world.RouteOpt{TS: 1 + src.Intn("manyverbsts", 3)}}
 				want := applyModel(rr.set, rr.cfg, rr.pool, op)
@@ -90,7 +90,7 @@ func runC11(src sim.Source, o Opts) *Result {
 					break
 				}
 			}
-			res.inc("rounds_with_a_pattern_under_ten_long_verbs")
+			res.inc("rounds_with_a_pattern_under_thirteen_verbs")
 			if rr.skip {
 				res.inc("runs_stopped_setup_write_disagrees_with_map_model")
 				break
